@@ -26,7 +26,9 @@ RULE = ("random histories (length <= 15, thorough <= 25) per object: FunctionSig
         "fractions - 0.1, 0.3, 0.7, 1/3, 1e-9, 0.7e-9 and the Askaryan/noise grids - also buffers on and one ulp next to "
         "k*dt, decimal literals, accumulated sums, and values for which fl(b/dt) is an integer while b % dt != 0), "
         "resample, with_times, + (with function-backed, sampled and empty signals, both operand orders), copy, *, "
-        "several live handles (a sum a+b / b+a of function-backed or thermal-noise signals, sums of sums, copy() and "
+        "exception safety (a generating function or an ice model that raises once: the failed read must leave no cache "
+        "entry and the next read must equal a fresh object's; a uniform tracer with a non-uniform ice model raises "
+        "TypeError on every read), several live handles (a sum a+b / b+a of function-backed or thermal-noise signals, sums of sums, copy() and "
         "with_times() of the sum, a + sampled): everything is read, one handle is mutated by filter_frequencies / "
         "set_buffers / shift / *=, and all other handles must equal their earlier values and never-mutated twins, "
         "*= and /= by 2, -0.5, 3, 0.7 checked against the values read before the scaling, set_buffers calls that are "
@@ -435,6 +437,73 @@ SIGNAL_KINDS = ["FunctionSignal", "FunctionSignal", "FullThermalNoise", "FFTTher
                 "AVZAskaryanSignal", "ARZAskaryanSignal"]
 
 
+class OnceFailure(Exception):
+    """the failure injected by the user callbacks below (a class of its own: pyrex catches RuntimeError / ValueError /
+    TypeError in several places for its own purposes)"""
+
+
+class FlakyFn:
+    """a user generating function that raises (not a TypeError/ValueError, which `values` would absorb) on its next
+    call when armed, and works afterwards"""
+
+    def __init__(self, base):
+        self.base = base
+        self.fail_next = False
+
+    def __call__(self, t):
+        if self.fail_next:
+            self.fail_next = False
+            raise OnceFailure("generating function failed once")
+        return self.base(t)
+
+
+def flaky_function(ctx, tr, kind, unit):
+    """EXCEPTION SAFETY of the lazy read: `values` raises half-way (one component evaluated, the next one fails),
+    then is read again with no assignment in between: the second read must be what a fresh object reports"""
+    E = env()
+    np, S = E["np"], E["S"]
+    rng = ctx.run.rng
+    a = tr.obj
+    fl = FlakyFn(rng.choice(E["funcs"][:3]) if kind == "FunctionSignal" else (lambda t: 0 * np.asarray(t) + 1e-3))
+    other = S.FunctionSignal(a.times, fl, a.value_type)
+    s = (a + other) if rng.random() < 0.5 else (other + a)
+    tr.tok("call:__add__")
+    ts = Tracked(s, "FunctionSignal", ["call:__add__@new_signal"])
+    ts.keys.append(keyset(s))
+    ctx.tracked.append(ts)
+    ctx.hist.append("s = a + (function that can fail once) ; (continue on the result)")
+    if rng.random() < 0.5:
+        check_signal(ctx, ts)
+        ctx.hist.append("read")
+        s.shift(rng.choice([1.0, -2.0]) * unit)      # clears the cache: the next read evaluates again
+        ts.tok("call:shift")
+        ctx.hist.append("shift")
+    for f in s._functions:
+        if isinstance(f, FlakyFn):
+            f.fail_next = True
+    got = None
+    try:
+        with warnings.catch_warnings():
+            warnings.simplefilter("ignore")
+            got = s.values
+    except OnceFailure:
+        pass
+    ctx.hist.append("read (the generating function raises)")
+    ctx.run.count("failed_lazy_read_signal")
+    if got is not None:
+        ctx.note("FunctionSignal.values returned %s although its generating function raised" % (str(got)[:80],))
+    if "values" in keyset(s):
+        ctx.note("a failed read of FunctionSignal.values left a cache entry (%r)" % (s.__dict__.get("_lazy_values"),))
+    ts.keys.append(keyset(s))
+    ts.toks.append("m:_never_")             # (no effect in the model: a failing evaluation leaves the cache as it was)
+    for f in s._functions:                  # the cause is gone (it failed once); make sure it is disarmed
+        if isinstance(f, FlakyFn):
+            f.fail_next = False
+    check_signal(ctx, ts)                   # the second read: twin + eager evaluation
+    ctx.hist.append("read again")
+    return ts
+
+
 def sum_handles(ctx, tr, kind, filters, unit):
     """Several live handles: a sum of function-backed signals, its operands, and copies / re-gridded versions
     of the sum must not share mutable internals.  Everything is read first; then one handle is mutated and all
@@ -588,7 +657,7 @@ def signal_history(ctx, nsteps):
     for _ in range(nsteps):
         s = tr.obj
         op = rng.choice(["read", "read", "shift", "imul", "idiv", "filter", "buffers", "resample", "with_times",
-                         "add", "copy", "mul", "times_inplace", "respace", "add_sampled", "sum_handles", "sum_handles"]
+                         "add", "copy", "mul", "times_inplace", "respace", "add_sampled", "sum_handles", "sum_handles", "flaky_fn"]
                         + (["buffers", "buffers"] if nonbinary(unit) else []))
         ctx.run.count("sig_op_" + op)
         if op == "read":
@@ -628,6 +697,9 @@ def signal_history(ctx, nsteps):
             continue
         elif op == "sum_handles":
             tr = sum_handles(ctx, tr, kind, filters, unit)
+            continue
+        elif op == "flaky_fn":
+            tr = flaky_function(ctx, tr, kind, unit)
             continue
         elif op == "add_sampled":
             # function-backed + sampled / empty signal, both operand orders
@@ -804,6 +876,58 @@ def signal_history(ctx, nsteps):
 
 # ------------------------------------------------------------------------------------------------
 # tracer / path histories
+def flaky_ice_for(o):
+    """an ice model of the right family whose `index` raises once when armed"""
+    E = env()
+    I = E["I"]
+    uniform = type(o).__name__.startswith(("Uniform", "UserUniform"))
+    key = "FlakyUniform" if uniform else "FlakyAntarctic"
+    if key not in E:
+        base = I.UniformIce if uniform else I.AntarcticIce
+
+        class Flaky(base):
+            fail_next = False
+
+            def index(self, z):
+                if self.fail_next:
+                    self.fail_next = False
+                    raise OnceFailure("ice model failed once")
+                return super().index(z)
+        Flaky.__name__ = key
+        E[key] = Flaky
+    return E[key](1.6) if uniform else E[key]()
+
+
+def flaky_ice_step(ctx, tr):
+    """EXCEPTION SAFETY on tracers and paths: a lazy read raises half-way because the ice model fails once; the next
+    read (no assignment in between) must be what a fresh object reports - never None, never a half result"""
+    o = tr.obj
+    rng = ctx.run.rng
+    ice = flaky_ice_for(o)
+    o.ice = ice
+    tr.tok("a:ice")
+    ctx.hist.append("%s.ice = <ice model that can fail once>" % type(o).__name__)
+    names = lazy_names(o)
+    for n in rng.sample(names, min(len(names), rng.randint(1, 3))):
+        before = keyset(o)
+        ice.fail_next = True
+        r1 = read_attr(o, n)
+        failed = ice.fail_next is False and r1[:1] == ("exc",)
+        ice.fail_next = False
+        after = keyset(o)
+        for k in sorted(k for k in after if k not in before):
+            tr.tok("r:" + k)
+        if failed:
+            ctx.run.count("failed_lazy_read_object")
+            ctx.hist.append("read %s (the ice model raises)" % n)
+            if r1 != ("exc", "OnceFailure"):
+                ctx.note("%s.%s: the failure of the ice model surfaced as %s" % (type(o).__name__, n, r1))
+            if n in after:
+                ctx.note("a failed read of %s.%s left the cache entry %r" % (type(o).__name__, n, o.__dict__.get("_lazy_" + n)))
+        check_object(ctx, tr, [n])          # the second read, against a fresh twin
+        ctx.hist.append("read %s again" % n)
+
+
 def ices():
     E = env()
     I = E["I"]
@@ -893,6 +1017,9 @@ def object_history(ctx, nsteps):
         cname = type(o).__name__
         if cname.startswith("UserUniform"):
             cname = "UniformRayTracer"
+        if "ice" in o.__dict__ and not cname.startswith("Layered") and rng.random() < 0.07:
+            flaky_ice_step(ctx, tr)
+            continue
         if o is rt and isinstance(ctor_args[0], np.ndarray) and rng.random() < 0.15:
             # the caller edits the arrays it passed to the constructor: the tracer must not notice (it copied them)
             ctor_args[rng.randrange(2)][2] -= 7.5
@@ -959,6 +1086,9 @@ def object_history(ctx, nsteps):
             val = np.array((rng.uniform(60, 400), rng.uniform(-40, 40), rng.uniform(-150, -20)))
         elif attr == "ice":
             pool = ices()[2:] if cname.startswith("Uniform") else ices()[:2]
+            if cname == "UniformRayTracer" and rng.random() < 0.2:
+                pool = ices()[:1]       # a non-uniform ice model: `exists` / `solutions` raise TypeError, persistently
+                ctx.run.count("uniform_tracer_with_nonuniform_ice")
             val = rng.choice(pool)
         elif attr == "dz":
             val = rng.choice([1, 2, 5])
